@@ -266,6 +266,266 @@ fn ex_icmp6(p: &str, i: &Icmpv6Slice) {
     dbg(&format!("{p}.icmp6.hdr"), &i.header());
     dbg(&format!("{p}.icmp6.type"), &i.icmp_type());
     dbg(&format!("{p}.icmp6.valid4"), &i.is_checksum_valid([1; 16], [2; 16]));
+    dbg(&format!("{p}.icmp6.hl"), &(i.header_len(), i.type_u8(), i.code_u8(), i.checksum(), i.bytes5to8()));
+    match i.payload_slice() {
+        Ok(ps) => ex_icmp6_payload(&format!("{p}.icmp6"), &ps),
+        Err(e) => dbg(&format!("{p}.icmp6.ps.err"), &e),
+    }
+}
+
+/// NDP option iteration: must end within len + 2 calls of next() (every item covers at least
+/// 8 bytes, an error ends the iteration), every item inside the input
+fn ex_ndp_opts(p: &str, it: icmpv6::NdpOptionsIterator, area_len: usize) {
+    use icmpv6::*;
+    let mut it = it;
+    let mut n = 0usize;
+    loop {
+        sub(&format!("{p}.ndp.rest"), it.rest());
+        dbg(&format!("{p}.ndp.it"), &it);
+        match it.next() {
+            None => break,
+            Some(Ok(o)) => {
+                item();
+                sub(&format!("{p}.ndp.opt"), o.as_bytes());
+                dbg(&format!("{p}.ndp.ty"), &o.option_type());
+                dbg(&format!("{p}.ndp.o"), &o);
+                match &o {
+                    NdpOptionSlice::SourceLinkLayerAddress(v) => sub(&format!("{p}.ndp.sll"), v.link_layer_address()),
+                    NdpOptionSlice::TargetLinkLayerAddress(v) => sub(&format!("{p}.ndp.tll"), v.link_layer_address()),
+                    NdpOptionSlice::PrefixInformation(v) => {
+                        sub(&format!("{p}.ndp.pi"), &v.as_bytes()[..]);
+                        dbg(&format!("{p}.ndp.piv"), &v.prefix_information());
+                        dbg(&format!("{p}.ndp.pif"), &(v.prefix_length(), v.on_link(), v.autonomous_address_configuration(),
+                            v.valid_lifetime(), v.preferred_lifetime(), v.prefix()));
+                    }
+                    NdpOptionSlice::RedirectedHeader(v) => sub(&format!("{p}.ndp.rh"), v.redirected_packet()),
+                    NdpOptionSlice::Mtu(v) => dbg(&format!("{p}.ndp.mtu"), &v.mtu()),
+                    NdpOptionSlice::Unknown(v) => {
+                        sub(&format!("{p}.ndp.unk"), v.data());
+                        dbg(&format!("{p}.ndp.unkt"), &v.option_type());
+                    }
+                    _ => put("ndp:other"),
+                }
+            }
+            Some(Err(e)) => {
+                item();
+                dbg(&format!("{p}.ndp.err"), &e);
+                disp(&format!("{p}.ndp.errd"), &e);
+            }
+        }
+        n += 1;
+        if n > area_len + 2 {
+            put("ndp:TOO-MANY");
+            panic!("NdpOptionsIterator yields more items than there are bytes (no progress)");
+        }
+    }
+}
+
+fn ex_icmp6_payload(p: &str, ps: &icmpv6::Icmpv6PayloadSlice) {
+    use icmpv6::Icmpv6PayloadSlice as S;
+    sub(&format!("{p}.ps.slice"), ps.slice());
+    dbg(&format!("{p}.ps"), ps);
+    if let Some((pl, rest)) = ps.to_payload() {
+        dbg(&format!("{p}.ps.to"), &pl);
+        sub(&format!("{p}.ps.to.rest"), rest);
+    }
+    match ps {
+        S::DestinationUnreachable(v) => { sub(&format!("{p}.ps.du"), v.slice()); sub(&format!("{p}.ps.du.inv"), v.invoking_packet()); }
+        S::PacketTooBig(v) => { sub(&format!("{p}.ps.ptb"), v.slice()); sub(&format!("{p}.ps.ptb.inv"), v.invoking_packet()); }
+        S::TimeExceeded(v) => { sub(&format!("{p}.ps.te"), v.slice()); sub(&format!("{p}.ps.te.inv"), v.invoking_packet()); }
+        S::ParameterProblem(v) => {
+            sub(&format!("{p}.ps.pp"), v.slice());
+            sub(&format!("{p}.ps.pp.inv"), v.invoking_packet());
+            match v.as_lax_ip_slice() {
+                Ok((ip, stop)) => {
+                    dbg(&format!("{p}.ps.pp.ip"), &ip);
+                    dbg(&format!("{p}.ps.pp.stop"), &stop);
+                    sub(&format!("{p}.ps.pp.ip.pl"), ip.payload().payload);
+                }
+                Err(e) => dbg(&format!("{p}.ps.pp.iperr"), &e),
+            }
+        }
+        S::EchoRequest(v) => { sub(&format!("{p}.ps.erq"), v.slice()); sub(&format!("{p}.ps.erq.d"), v.data()); }
+        S::EchoReply(v) => { sub(&format!("{p}.ps.erp"), v.slice()); sub(&format!("{p}.ps.erp.d"), v.data()); }
+        S::RouterSolicitation(v) => {
+            sub(&format!("{p}.ps.rs"), v.slice());
+            sub(&format!("{p}.ps.rs.o"), v.options());
+            ex_ndp_opts(&format!("{p}.rs"), v.options_iterator(), v.options().len());
+            let (pl, rest) = v.to_payload(); dbg(&format!("{p}.ps.rs.to"), &pl); sub(&format!("{p}.ps.rs.to.rest"), rest);
+        }
+        S::RouterAdvertisement(v) => {
+            sub(&format!("{p}.ps.ra"), v.slice());
+            dbg(&format!("{p}.ps.ra.f"), &(v.reachable_time(), v.retrans_timer()));
+            sub(&format!("{p}.ps.ra.o"), v.options());
+            ex_ndp_opts(&format!("{p}.ra"), v.options_iterator(), v.options().len());
+            let (pl, rest) = v.to_payload(); dbg(&format!("{p}.ps.ra.to"), &pl); sub(&format!("{p}.ps.ra.to.rest"), rest);
+        }
+        S::NeighborSolicitation(v) => {
+            sub(&format!("{p}.ps.ns"), v.slice());
+            dbg(&format!("{p}.ps.ns.t"), &v.target_address());
+            sub(&format!("{p}.ps.ns.o"), v.options());
+            ex_ndp_opts(&format!("{p}.ns"), v.options_iterator(), v.options().len());
+            let (pl, rest) = v.to_payload(); dbg(&format!("{p}.ps.ns.to"), &pl); sub(&format!("{p}.ps.ns.to.rest"), rest);
+        }
+        S::NeighborAdvertisement(v) => {
+            sub(&format!("{p}.ps.na"), v.slice());
+            dbg(&format!("{p}.ps.na.t"), &v.target_address());
+            sub(&format!("{p}.ps.na.o"), v.options());
+            ex_ndp_opts(&format!("{p}.na"), v.options_iterator(), v.options().len());
+            let (pl, rest) = v.to_payload(); dbg(&format!("{p}.ps.na.to"), &pl); sub(&format!("{p}.ps.na.to.rest"), rest);
+        }
+        S::Redirect(v) => {
+            sub(&format!("{p}.ps.rd"), v.slice());
+            dbg(&format!("{p}.ps.rd.t"), &(v.target_address(), v.destination_address()));
+            sub(&format!("{p}.ps.rd.o"), v.options());
+            ex_ndp_opts(&format!("{p}.rd"), v.options_iterator(), v.options().len());
+            let (pl, rest) = v.to_payload(); dbg(&format!("{p}.ps.rd.to"), &pl); sub(&format!("{p}.ps.rd.to.rest"), rest);
+        }
+        S::Raw(r) => sub(&format!("{p}.ps.raw"), r),
+        _ => put("ps:other"),
+    }
+}
+
+/// control-message decoders, NDP option decoders, IGMP, the IPv4 extension decoders, the
+/// length-limited readers and the remaining `_lax` / `from_bytes` doors, on raw data
+fn exercise_more(data: &[u8]) {
+    use icmpv6::*;
+    // every typed ICMPv6 payload decoder on the raw bytes
+    macro_rules! ps {
+        ($name:expr, $t:ident, $variant:ident) => {
+            match $t::from_slice(data) {
+                Ok(v) => ex_icmp6_payload($name, &Icmpv6PayloadSlice::$variant(v)),
+                Err(e) => dbg(&format!("{}.err", $name), &e),
+            }
+        };
+    }
+    ps!("m.du", DestinationUnreachablePayloadSlice, DestinationUnreachable);
+    ps!("m.ptb", PacketTooBigPayloadSlice, PacketTooBig);
+    ps!("m.te", TimeExceededPayloadSlice, TimeExceeded);
+    ps!("m.pp", ParameterProblemPayloadSlice, ParameterProblem);
+    ps!("m.erq", EchoRequestPayloadSlice, EchoRequest);
+    ps!("m.erp", EchoReplyPayloadSlice, EchoReply);
+    ps!("m.rs", RouterSolicitationPayloadSlice, RouterSolicitation);
+    ps!("m.ra", RouterAdvertisementPayloadSlice, RouterAdvertisement);
+    ps!("m.ns", NeighborSolicitationPayloadSlice, NeighborSolicitation);
+    ps!("m.na", NeighborAdvertisementPayloadSlice, NeighborAdvertisement);
+    ps!("m.rd", RedirectPayloadSlice, Redirect);
+    // the NDP option iterator and every option decoder on the raw bytes
+    ex_ndp_opts("m.raw", NdpOptionsIterator::from_slice(data), data.len());
+    macro_rules! opt {
+        ($name:expr, $t:ident) => {
+            match $t::from_slice(data) {
+                Ok(v) => { sub($name, &v.as_bytes()[..]); dbg(&format!("{}.v", $name), &v); }
+                Err(e) => { dbg(&format!("{}.err", $name), &e); disp(&format!("{}.errd", $name), &e); }
+            }
+        };
+    }
+    opt!("m.o.sll", SourceLinkLayerAddressOptionSlice);
+    opt!("m.o.tll", TargetLinkLayerAddressOptionSlice);
+    opt!("m.o.pi", PrefixInformationOptionSlice);
+    opt!("m.o.rh", RedirectedHeaderOptionSlice);
+    opt!("m.o.mtu", MtuOptionSlice);
+    opt!("m.o.unk", UnknownNdpOptionSlice);
+    match NdpOptionHeader::from_slice(data) {
+        Ok((h, rest)) => { dbg("m.o.hdr", &h); sub("m.o.hdr.rest", rest); }
+        Err(e) => dbg("m.o.hdr.err", &e),
+    }
+    dbg("m.o.piv", &PrefixInformation::from_slice(data));
+    // IGMP
+    match IgmpHeader::from_slice(data) {
+        Ok((h, rest)) => { dbg("m.igmp", &h); sub("m.igmp.rest", rest); dbg("m.igmp.b", &h.to_bytes()); }
+        Err(e) => dbg("m.igmp.err", &e),
+    }
+    match igmp::ReportGroupRecordV3Header::from_slice(data) {
+        Ok((h, rest)) => { dbg("m.igmpgr", &h); sub("m.igmpgr.rest", rest); }
+        Err(e) => dbg("m.igmpgr.err", &e),
+    }
+    // standalone header slices
+    match MacsecHeaderSlice::from_slice(data) {
+        Ok(h) => ex_macsec_header("m", &h),
+        Err(e) => dbg("m.macsech.err", &e),
+    }
+    // IPv4 / IPv6 extension decoders with every start number that names an extension, and two that do not
+    for nh in [0u8, 43, 44, 51, 60, 6, 17, 59, 135, 139, 140] {
+        match Ipv4ExtensionsSlice::from_slice(IpNumber(nh), data) {
+            Ok((x, n, rest)) => { dbg(&format!("m.x4s.{nh}"), &(x.to_header(), n)); sub(&format!("m.x4s.{nh}.rest"), rest);
+                                  if let Some(a) = &x.auth { ex_auth(&format!("m.x4s.{nh}"), a); } }
+            Err(e) => dbg(&format!("m.x4s.{nh}.err"), &e),
+        }
+        {
+            let (x, n, rest, stop) = Ipv4ExtensionsSlice::from_slice_lax(IpNumber(nh), data);
+            dbg(&format!("m.x4sl.{nh}"), &(x.to_header(), n, stop)); sub(&format!("m.x4sl.{nh}.rest"), rest);
+        }
+        match Ipv4Extensions::from_slice(IpNumber(nh), data) {
+            Ok((x, n, rest)) => { dbg(&format!("m.x4.{nh}"), &(x, n)); sub(&format!("m.x4.{nh}.rest"), rest); }
+            Err(e) => dbg(&format!("m.x4.{nh}.err"), &e),
+        }
+        {
+            let (x, n, rest, stop) = Ipv4Extensions::from_slice_lax(IpNumber(nh), data);
+            dbg(&format!("m.x4l.{nh}"), &(x, n, stop)); sub(&format!("m.x4l.{nh}.rest"), rest);
+        }
+        match Ipv6ExtensionsSlice::from_slice(IpNumber(nh), data) {
+            Ok((x, n, rest)) => { ex_ipv6_exts(&format!("m.x6s.{nh}"), &x); dbg(&format!("m.x6s.{nh}.n"), &n); sub(&format!("m.x6s.{nh}.rest"), rest); }
+            Err(e) => dbg(&format!("m.x6s.{nh}.err"), &e),
+        }
+        {
+            let (x, n, rest, stop) = Ipv6ExtensionsSlice::from_slice_lax(IpNumber(nh), data);
+            ex_ipv6_exts(&format!("m.x6sl.{nh}"), &x); dbg(&format!("m.x6sl.{nh}.n"), &(n, stop)); sub(&format!("m.x6sl.{nh}.rest"), rest);
+        }
+        match Ipv6Extensions::from_slice(IpNumber(nh), data) {
+            Ok((x, n, rest)) => { dbg(&format!("m.x6.{nh}"), &(x, n)); sub(&format!("m.x6.{nh}.rest"), rest); }
+            Err(e) => dbg(&format!("m.x6.{nh}.err"), &e),
+        }
+        {
+            let (x, n, rest, stop) = Ipv6Extensions::from_slice_lax(IpNumber(nh), data);
+            dbg(&format!("m.x6l.{nh}"), &(x, n, stop)); sub(&format!("m.x6l.{nh}.rest"), rest);
+        }
+        // reader doors, unlimited and length-limited (limit = the data, one less, far more)
+        {
+            let mut c = std::io::Cursor::new(data);
+            let r = Ipv4Extensions::read(&mut c, IpNumber(nh));
+            dbg(&format!("m.x4r.{nh}"), &(r.map_err(|e| format!("{:?}", e).chars().take(60).collect::<String>()), c.position()));
+            let mut c = std::io::Cursor::new(data);
+            let r = Ipv6Extensions::read(&mut c, IpNumber(nh));
+            dbg(&format!("m.x6r.{nh}"), &(r.map_err(|e| format!("{:?}", e).chars().take(60).collect::<String>()), c.position()));
+        }
+        for lim in [data.len(), data.len().saturating_sub(1), data.len() + 1000, 0] {
+            let mut lr = etherparse::io::LimitedReader::new(std::io::Cursor::new(data), lim, LenSource::Ipv4HeaderTotalLen, 3, err::Layer::Ipv4Header);
+            let r = Ipv4Extensions::read_limited(&mut lr, IpNumber(nh));
+            dbg(&format!("m.x4rl.{nh}.{lim}"), &(r.map_err(|e| format!("{:?}", e).chars().take(80).collect::<String>())));
+            let mut lr = etherparse::io::LimitedReader::new(std::io::Cursor::new(data), lim, LenSource::Ipv6HeaderPayloadLen, 5, err::Layer::Ipv6Header);
+            let r = Ipv6Extensions::read_limited(&mut lr, IpNumber(nh));
+            dbg(&format!("m.x6rl.{nh}.{lim}"), &(r.map_err(|e| format!("{:?}", e).chars().take(80).collect::<String>())));
+        }
+    }
+    for lim in [data.len(), data.len().saturating_sub(1), data.len() + 1000, 0] {
+        let mut lr = etherparse::io::LimitedReader::new(std::io::Cursor::new(data), lim, LenSource::Ipv6HeaderPayloadLen, 7, err::Layer::IpAuthHeader);
+        dbg(&format!("m.ahrl.{lim}"), &IpAuthHeader::read_limited(&mut lr).map_err(|e| format!("{:?}", e).chars().take(80).collect::<String>()));
+        let mut lr = etherparse::io::LimitedReader::new(std::io::Cursor::new(data), lim, LenSource::Ipv6HeaderPayloadLen, 7, err::Layer::Ipv6ExtHeader);
+        dbg(&format!("m.rawrl.{lim}"), &Ipv6RawExtHeader::read_limited(&mut lr).map_err(|e| format!("{:?}", e).chars().take(80).collect::<String>()));
+        let mut lr = etherparse::io::LimitedReader::new(std::io::Cursor::new(data), lim, LenSource::Ipv6HeaderPayloadLen, 7, err::Layer::Ipv6FragHeader);
+        dbg(&format!("m.fragrl.{lim}"), &Ipv6FragmentHeader::read_limited(&mut lr).map_err(|e| format!("{:?}", e).chars().take(80).collect::<String>()));
+    }
+    {
+        let mut c = std::io::Cursor::new(data);
+        let r = Ipv4Header::read_without_version(&mut c, 0x45).map_err(|e| format!("{:?}", e).chars().take(60).collect::<String>());
+        dbg("m.v4rwv", &(r, c.position()));
+        let mut c = std::io::Cursor::new(data);
+        let r = Ipv6Header::read_without_version(&mut c, 0x60).map_err(|e| format!("{:?}", e).chars().take(60).collect::<String>());
+        dbg("m.v6rwv", &(r, c.position()));
+    }
+    // the lax copy of Ipv6Slice
+    match Ipv6Slice::from_slice_lax(data) {
+        Ok(v) => ex_ipv6("m.v6lax", &v),
+        Err(e) => dbg("m.v6lax.err", &e),
+    }
+    // fixed-size doors
+    if let Ok(b) = <[u8; 14]>::try_from(data) { dbg("m.fb.eth", &Ethernet2Header::from_bytes(b)); }
+    if let Ok(b) = <[u8; 16]>::try_from(data) { dbg("m.fb.sll", &LinuxSllHeader::from_bytes(b)); }
+    if let Ok(b) = <[u8; 4]>::try_from(data) { dbg("m.fb.vlan", &SingleVlanHeader::from_bytes(b)); dbg("m.fb.echo", &IcmpEchoHeader::from_bytes(b)); }
+    if let Ok(b) = <[u8; 8]>::try_from(data) { dbg("m.fb.udp", &UdpHeader::from_bytes(b)); }
+    if let Ok(b) = <[u8; 2]>::try_from(data) { dbg("m.fb.ndph", &NdpOptionHeader::from_bytes(b)); }
+    if let Ok(b) = <[u8; 32]>::try_from(data) { dbg("m.fb.pi", &PrefixInformation::from_bytes(b)); }
 }
 
 fn ex_sliced(p: &str, r: &Result<SlicedPacket, err::packet::SliceError>) {
@@ -831,6 +1091,7 @@ fn exercise(data: &[u8]) {
         if let Ok((_, rest)) = UdpHeader::read_from_slice(data) { sub("dep.udp.rest", rest); }
         if let Ok((_, rest)) = TcpHeader::read_from_slice(data) { sub("dep.tcp.rest", rest); }
     }
+    exercise_more(data);
 }
 
 // ---- placements -------------------------------------------------------------
